@@ -52,6 +52,26 @@ CHECKS = {
         "history must end with removed=True) is deliberate, see DESIGN.md.",
         "DESIGN.md §4 C08",
     ),
+    "C01": (
+        "PBT with a brute-force reference: per-instance exhaustive re-enumeration of all consecutive groupings "
+        "(own chi2/Yates, V, T, Kruskal-Wallis code, exact three-valued viability) compared with the fitted grouping",
+        "Generated tie-prone samples x Binary/ContinuousCarver x all parameters, with and without dev; the optimum "
+        "over every viable grouping (and every missing-value placement) is recomputed independently for each case "
+        "and the carver's result (recovered through transform) must be an admissible optimum, or its drop must be "
+        "justified by a search with no surely-viable candidate. Exhaustive per instance, random over instances.",
+        "Trusted: an identically configured Discretizer for the base modalities (C03/C04/C09 decide it), own "
+        "measure code (checked against scipy on the unchanged tree by agreement with the carver), Fraction arithmetic.",
+        "DESIGN.md §4 C01",
+    ),
+    "C05": (
+        "PBT with a both-directions oracle: new frames built from value selectors resolved against the fitted "
+        "state; cause <=> AssertionError naming the feature, otherwise every label equals the reference group's label",
+        "Fitted objects of every class and 3-5 new frames each (boundaries +-1ulp, +-1e308, denormals, unseen "
+        "categories shared across columns, missing values where none were seen, empty/1-row frames, extra and "
+        "permuted columns). Exploration over bounded sizes.",
+        "Trusted: reference mapping; fit itself is not judged here.",
+        "DESIGN.md §4 C05",
+    ),
     "C04": (
         "PBT with a reference oracle: table-first generated samples, transform(X_train) compared with the "
         "mapping recomputed from values_orders (list+content) only; metamorphic string-form probe",
